@@ -164,6 +164,31 @@ CLAIMED = {
         note="Trusted: mc/core/workmon.py (monitor installed from outside) and the per-operation constants in "
              "mc/props/c20.py. Known finding: Simplifier plus/times flattening is super-linear.",
         design="§3 C20"),
+    "C14": dict(
+        category="model_checking", engine="explorer",
+        technique="exhaustive enumeration of API histories up to a length bound on a fresh real Environment, each "
+                  "followed by a complete probe set compared with an untouched environment (differential oracle)",
+        text="All histories of length <= 2 over ~130 events (thorough: ~230 events, and length 3 over a reduced "
+             "alphabet): build, type query, simplify, substitute with 3 maps, analyses, logic/theory (incl. mutating "
+             "the returned Theory), six size measures, printing, parsing, nnf/cnf/prenex/aig, 19 constant spellings, "
+             "FreshSymbol. After each history ~330 probes are run (in both orders where value-keyed caches matter) and "
+             "compared with a fresh environment up to commutative order and fresh-symbol numbering; repeating a call "
+             "must return the same object.",
+        note="No state merging (the state is the history). Trusted: the canonical forms in mc/core/histworld.py.",
+        design="§3 C14"),
+    "C15": dict(
+        category="fault_enumeration", engine="explorer",
+        technique="exhaustive fault enumeration: every natural failing call and an injected failure at every callback "
+                  "position of every long-lived walker, each followed by the complete probe set compared with a twin "
+                  "that never made the failing call",
+        text="prefix (<=1 event) x failing call x probes: ill-typed constructions, type-breaking substitution of every "
+             "symbol in every universe formula, foreign keys, redefinition, wrong arity, SMT-LIB and HR text cut or "
+             "corrupted at every token position (long-lived parser objects), model evaluation errors, an injected "
+             "exception at the k-th callback for every k of 8 walkers, and solver calls that raise (refused formula, "
+             "unknown, pop beyond depth, error reply to assert/declare/check-sat/push through SmtLibSolver).",
+        note="Injected faults are installed from outside by wrapping walker.functions. The tracking-solver part uses "
+             "the harness' BruteSolver; failures inside a concrete solver's own _solve are out of reach.",
+        design="§3 C15"),
     "C16": dict(
         category="model_checking", engine="explorer",
         technique="exhaustive enumeration of all legal SMT-LIB command sequences up to a length bound against an "
@@ -194,7 +219,7 @@ ENGINES = [
          kind_free_text="external work monitor (walker callbacks, create_node, python-level calls)"),
     dict(name="table", path="mc/props/c06.py", serves_properties=["C06"],
          kind_free_text="exhaustive table-driven enumeration over finite operand domains"),
-    dict(name="explorer", path="mc/core/explorer.py", serves_properties=["C16", "C17"],
+    dict(name="explorer", path="mc/core/explorer.py", serves_properties=["C14", "C15", "C16", "C17"],
          kind_free_text="explicit-state breadth-first search over API histories replayed on fresh real objects in lock-step with a reference model"),
     dict(name="sweep", path="mc/core/sweep.py", serves_properties=["C01", "C02", "C03", "C05", "C10", "C11", "C12", "C13"],
          kind_free_text="sharded bounded-exhaustive term enumeration (termgen) + reference semantics (refsem)"),
